@@ -219,7 +219,9 @@ func (x *Explorer) answerFor(q *gw.Req) gw.Action {
 			`{"result":{"model":{"k0":1},"collection":[1]}}`, `{"result":{}}`, `{"result":{"collection":[{"action":"delete"}]}}`,
 			`{"result":{"model":{"k0":{"rid":"a b"}}}}`, `{"error":5}`, `{"error":{"code":7}}`, `{"result":{"get":"yes"}}`, `{"resource":{"rid":"*"}}`,
 			`{"resource":{}}`, `{"result":{"model":{"k0":{"foo":1}}}}`, `{"result":{"collection":{}}}`, `{"meta":{"status":"x"},"result":{"get":true}}`,
-			"\xff\xfe", `{"result":{"model":{"k0":{"rid":"test.r1","action":"delete"}}}}`}
+			"\xff\xfe", `{"result":{"model":{"k0":{"rid":"test.r1","action":"delete"}}}}`,
+			`{"meta":{"status":302,"header":{"Location":["/somewhere"]}}}`, `{"meta":{"status":404}}`, `{"meta":{"status":200}}`,
+			`{"meta":{"status":500},"result":null}`, `{"result":{"model":{"k3":424242,"k0":[1]}}}`, `{"result":{"collection":[424243,{"rid":""}]}}`}
 		a.Text = bad[x.R.Intn(len(bad))]
 		a.Abs = "err\tmalformed"
 		return a
@@ -411,7 +413,8 @@ func (x *Explorer) svcEvent() (gw.Action, bool) {
 		type be struct{ ev, payload string }
 		var bad []be
 		if c.IsModel {
-			bad = []be{{"change", `{"values":{"k0":[1]}}`}, {"change", `"x"`}, {"change", `{"values":{"k1":{"rid":""}}}`}, {"change", `{"values":`},
+			bad = []be{{"change", `{"values":{"k3":424244,"k0":[1]}}`}, {"change", `{"values":{"k2":424245,"k1":{"rid":""}}}`},
+				{"change", `{"values":{"k0":[1]}}`}, {"change", `"x"`}, {"change", `{"values":{"k1":{"rid":""}}}`}, {"change", `{"values":`},
 				{"add", `{"idx":0,"value":1}`}, {"remove", `{"idx":0}`}, {"change", `{"values":{"k2":{"action":"nuke"}}}`}, {"change", ``},
 				{"change", `{"values":{"k0":{"rid":"a","data":1}}}`}, {"change", `[]`}}
 		} else {
@@ -774,42 +777,49 @@ func Explore(seed int64, p Profile) (run *gw.Run, stall error) {
 	}
 	x.quiesce("final")
 	if p.Endgame {
-		// every client leaves, everything is answered, every eviction timer fires: the cache must be empty
-		for _, c := range x.Run.W.Clients {
-			if !cClosed(x.Run, c) {
-				x.Run.Do(gw.Action{A: "disconnect", C: c.Label})
-				closed[x.Run][c.Label] = true
-			}
-		}
-		for round := 0; round < 6; round++ {
-			for i := 0; i < 400; i++ {
-				ready := x.Run.W.Ready()
-				pend := x.Run.W.MQ.Pending()
-				if len(ready)+len(pend) == 0 {
-					break
-				}
-				k := x.R.Intn(len(ready) + len(pend))
-				if k < len(ready) {
-					x.Run.Do(gw.Action{A: "grant", Text: ready[k]})
-				} else {
-					x.Run.Do(x.answerFor(pend[k-len(ready)]))
-				}
-			}
-			fired := false
-			for _, en := range x.Run.W.Serv.VerifCache().VerifEntries() {
-				if en.InEvictQueue {
-					if x.Run.Do(gw.Action{A: "evict", Subj: en.Name}) {
-						fired = true
-					}
-				}
-			}
-			if !fired && x.Run.W.Quiescent() {
-				break
-			}
-		}
-		x.quiesce("end")
+		x.endgame()
 	}
 	return run, nil
+}
+
+// endgame: every client leaves, everything is answered, every eviction timer fires: the cache must be empty.
+func (x *Explorer) endgame() {
+	p := x.P
+	_ = p
+	// every client leaves, everything is answered, every eviction timer fires: the cache must be empty
+	for _, c := range x.Run.W.Clients {
+		if !cClosed(x.Run, c) {
+			x.Run.Do(gw.Action{A: "disconnect", C: c.Label})
+			closed[x.Run][c.Label] = true
+		}
+	}
+	for round := 0; round < 6; round++ {
+		for i := 0; i < 400; i++ {
+			ready := x.Run.W.Ready()
+			pend := x.Run.W.MQ.Pending()
+			if len(ready)+len(pend) == 0 {
+				break
+			}
+			k := x.R.Intn(len(ready) + len(pend))
+			if k < len(ready) {
+				x.Run.Do(gw.Action{A: "grant", Text: ready[k]})
+			} else {
+				x.Run.Do(x.answerFor(pend[k-len(ready)]))
+			}
+		}
+		fired := false
+		for _, en := range x.Run.W.Serv.VerifCache().VerifEntries() {
+			if en.InEvictQueue {
+				if x.Run.Do(gw.Action{A: "evict", Subj: en.Name}) {
+					fired = true
+				}
+			}
+		}
+		if !fired && x.Run.W.Quiescent() {
+			break
+		}
+	}
+	x.quiesce("end")
 }
 
 var closed = map[*gw.Run]map[string]bool{}
